@@ -273,6 +273,8 @@ pub enum Step {
     H2Raw(Vec<u8>),
     /// WINDOW_UPDATE that really extends what we accept
     H2Grant { stream: u32, inc: u32 },
+    /// SETTINGS_INITIAL_WINDOW_SIZE change mid-connection (every stream window we offer moves by the difference)
+    H2ShrinkWindow(u32),
     H2Await(H2Cond),
     /// server: answer every complete request (`/size/<n>` gives an n-byte body, else 2 bytes);
     /// never finishes, counts as settled
@@ -588,6 +590,22 @@ impl Peer {
                             *h2.stream_recv_window.entry(stream).or_insert(init) += inc as i64;
                         }
                         self.conn.tx.extend_from_slice(&super::h2::window_update(stream, inc));
+                        self.conn.pump_write();
+                    }
+                    self.pc += 1;
+                    progressed = true;
+                }
+                Step::H2ShrinkWindow(w) => {
+                    if let Some(h2) = self.h2.as_mut() {
+                        let old = h2.local_settings.get(&super::h2::S_INITIAL_WINDOW_SIZE).copied().unwrap_or(65535) as i64;
+                        h2.local_settings.insert(super::h2::S_INITIAL_WINDOW_SIZE, w);
+                        for v in h2.stream_recv_window.values_mut() {
+                            *v += w as i64 - old;
+                        }
+                        // in flight data sent before the peer saw the change is legal: the ledger
+                        // only starts judging again once the peer acknowledged the new SETTINGS
+                        h2.grace_until_settings_ack = true;
+                        self.conn.tx.extend_from_slice(&super::h2::settings(&[(super::h2::S_INITIAL_WINDOW_SIZE, w)]));
                         self.conn.pump_write();
                     }
                     self.pc += 1;
